@@ -38,7 +38,9 @@ def main():
         earlier = [e for e in m.get("earlier_check_runs", []) if e]
         note = ""
         if earlier and det:
-            missed_before = [c for e in earlier for c, r in e.items() if r.get("exit") != 1]
+            # a run that could not compile the harness crate (a harness file was being edited) is not a run
+            missed_before = [c for e in earlier for c, r in e.items() if r.get("exit") != 1
+                             and not any("compile_error" in ln for ln in r.get("lines", []))]
             if missed_before:
                 note = " (first run: not detected; check strengthened, see below)"
         rows.append((m["seed"], m.get("property"), ", ".join(f.replace("crates/", "") for f in files), first_sentence(d / "README.md"),
